@@ -412,3 +412,22 @@ func RetVals(r *ssa.Return) []ssa.Value {
 	}
 	return out
 }
+
+// EdgeConds returns the conditions that hold when control flows along the CFG edge pred->succ:
+// everything that holds in pred plus pred's own branch outcome.
+func EdgeConds(pred, succ *ssa.BasicBlock) []Cond {
+	out := DomCondsBlock(pred)
+	if len(pred.Instrs) == 0 {
+		return out
+	}
+	if iff, ok := pred.Instrs[len(pred.Instrs)-1].(*ssa.If); ok && len(pred.Succs) == 2 && pred.Succs[0] != pred.Succs[1] {
+		var extra []Cond
+		if pred.Succs[0] == succ {
+			extra = append(extra, Cond{V: iff.Cond, Pol: true, If: iff})
+		} else if pred.Succs[1] == succ {
+			extra = append(extra, Cond{V: iff.Cond, Pol: false, If: iff})
+		}
+		out = append(out, expandConds(extra)...)
+	}
+	return out
+}
